@@ -14,6 +14,7 @@ Lemma or_False_iff (x : sdoc) (c : coll) : (False \/ In x (c_docs c)) <-> In x (
 Proof. tauto. Qed.
 
 Section CollInv.
+  Set Default Proof Using "Type".
   Variable matchf : doc -> doc -> res bool.
   Variable applyf : doc -> doc -> doc -> bool -> list doc -> Z -> res (doc * list (string * value)).
   Variable extractf : doc -> res doc.
@@ -140,7 +141,7 @@ Section CollInv.
     - split; [constructor|]. destruct b; simpl.
       + split; [constructor; [intros []|constructor]|]. constructor; [|constructor].
         apply (ix_good_ext matchf (fun _ => False)).
-        * intro x. unfold docs_of. simpl. tauto.
+        * intro x. unfold docs_of. simpl. split; intros [].
         * apply ix_good_empty; [apply id_index_wf|reflexivity].
       + split; constructor.
     - intros n sd Hin. destruct b; destruct Hin.
@@ -294,7 +295,7 @@ Section CollInv.
       + apply NoDup_map_filter. exact Hnd.
     - eapply has_id_shape; eauto.
     - intros sd Hin. simpl in Hin. unfold minus_matched in Hin. apply filter_In in Hin.
-      apply Hlt. tauto.
+      apply Hlt. destruct Hin as [Hin _]. exact Hin.
   Qed.
 
   (* the remaining documents are the non-matched ones, in their order *)
